@@ -92,4 +92,6 @@ def _inv_empty_segment(e, o):
     return z3.And(o.positions.len == 0, o.alignedPositions.len == 0, o.segmentScore == 0)
 
 
-CLASS_INVARIANTS = {'AlignmentSegment': _inv_segment, 'EmptyAlignmentSegment': _inv_empty_segment}
+# (invariant, triggers): the axiom is instantiated for an object only where one of the trigger terms (a field the invariant constrains) occurs
+CLASS_INVARIANTS = {'AlignmentSegment': (_inv_segment, lambda e, o: [o.alignedPositions.len]),
+                    'EmptyAlignmentSegment': (_inv_empty_segment, lambda e, o: [o.positions.len, o.alignedPositions.len, o.segmentScore])}
